@@ -95,7 +95,8 @@ theorem targets_open (hb : s.tab[bi]? = some b) (hh : s.hs[bi]? = some h) (ho : 
     targets L s r bi = match r with
       | .closure => (h.closeT.map (closeStep bi)).toList
       | .table k => tableTargets L s.maxWorlds s.maxConsts bi b h (s.live r bi) k
-      | .frame fr => frameTargets L s bi b h (s.live r bi) fr := by
+      | .frame fr => frameTargets L s bi b h (s.live r bi) fr
+      | .ident => identTargets L bi b (s.live r bi) := by
   unfold targets
   simp only [hb, hh, ho, Bool.false_eq_true, ↓reduceIte]
   cases r <;> rfl
@@ -517,17 +518,23 @@ theorem targets_nil_of_not_rule {L : LogicData} {s : SState} {bi : Nat} {r : Rul
           apply h
           have := lookup_mem (l := L.rules) hr
           simp only [ruleIds, List.mem_append, List.mem_map]
-          exact Or.inl (Or.inr ⟨(k, rl), this, rfl⟩)
+          exact Or.inl (Or.inl (Or.inr ⟨(k, rl), this, rfl⟩))
       | frame fr =>
         have hfa : L.frameAllowed fr = false := by
           rcases Bool.eq_false_or_eq_true (L.frameAllowed fr) with h1 | h1
           · exfalso
             apply h
             simp only [ruleIds, List.mem_append, List.mem_map, List.mem_filter]
-            refine Or.inr ⟨fr, ⟨?_, h1⟩, rfl⟩
+            refine Or.inl (Or.inr ⟨fr, ⟨?_, h1⟩, rfl⟩)
             cases fr <;> simp
           · exact h1
         simp [frameTargets, hfa]
+      | ident =>
+        have hc : L.closesSelfIdNeg = false := by
+          rcases Bool.eq_false_or_eq_true L.closesSelfIdNeg with h1 | h1
+          · exact absurd (by simp [ruleIds, h1]) h
+          · exact h1
+        simp [identTargets, hc]
   · rfl
 
 theorem noTargets_of_B {L : LogicData} {s : SState} {bi : Nat} (h : noTargetsB L s bi = true) :
